@@ -332,7 +332,7 @@ impl Prop for C14 {
     fn rule(&self) -> String {
         "Raw libraries from gen/rawgen.rs with layouts and abstracts (ports on 1-4 layers, blockages), named instances in all reflection/right-angle combinations, annotations, all shape kinds with and without nets on 1-4 layers x 6 purposes, units Micro/Nano/Angstrom, cells listed in straight/reversed/shuffled order. \
          Direction 1: from_proto(to_proto(lib)) compared with lib on name, units, cell set, view presence, instances (name, target, loc, reflect, rotation), annotations, per-(layer,purpose) shape multisets (rectangles by normalised corners, widths, nets), abstract outline/ports/blockages (per-layer maps); exported cell order must list dependencies first and the import must not fail. \
-         Direction 2: a protobuf message built by an independent writer (cells dependencies-first) must satisfy to_proto(from_proto(P)) == P (cell order exact; repeated per-layer fields compared as maps). distinct_nontrivial = distinct libraries (summary hash) having an instance, net or abstract."
+         Direction 2: a protobuf message built by an independent writer (cells dependencies-first) must satisfy to_proto(from_proto(P)) == P (cell order exact; repeated per-layer fields compared as maps, since the raw model keeps them in maps by layer). One library in four leaves an instantiated cell out of lib.cells (the export must define it all the same); one in twelve carries a fractional angle, which the export may refuse but not accept; imported instance targets are members of lib.cells by identity. distinct_nontrivial = distinct libraries (summary hash) having an instance, net or abstract."
             .into()
     }
     fn assumptions(&self) -> Vec<String> {
